@@ -298,7 +298,7 @@ pub struct BadFile {
 const RULE_BAD: &str = "one rate file that is mislabelled (period != file name, or a period that starts in the named month and ends in another), has a zero/negative/non-numeric rate (also on a row with an unknown currency code), an unknown currency code with a valid rate (must be ignored, not an error), an unparsable name or content, alone or after a good file; non-trivial = every case; distinct by parameters";
 
 fn strat_bad(_t: Tier) -> BoxedStrategy<BadFile> {
-    (2014i32..2028, 1u32..13, 0u8..12, any::<bool>(), any::<bool>()).prop_map(|(year, month, kind, prefixed, good_first)| BadFile { year, month, kind, prefixed, good_first }).boxed()
+    (2014i32..2028, 1u32..13, 0u8..15, any::<bool>(), any::<bool>()).prop_map(|(year, month, kind, prefixed, good_first)| BadFile { year, month, kind, prefixed, good_first }).boxed()
 }
 
 pub fn check_bad(b: &BadFile, obs: &mut Obs) -> Verdict {
@@ -342,12 +342,24 @@ pub fn check_bad(b: &BadFile, obs: &mut Obs) -> Verdict {
                 None => good,
             }
         }
-        _ => {
+        11 => {
             let good = fxtable::make_xml(b.year, b.month, &good_rows);
             match good.find(" to ") {
                 Some(i) => {
                     let end = good[i..].find('"').map(|j| i + j).unwrap_or(good.len());
                     format!("{} to 31/Dec/{}{}", &good[..i], b.year + 1, &good[end..])
+                }
+                None => good,
+            }
+        }
+        // the same mislabelled period with the two dates joined otherwise than by " to "
+        _ => {
+            let good = fxtable::make_xml(b.year, b.month, &good_rows);
+            let sep = ["\tto\t", " TO ", " - "][(b.kind as usize) % 3];
+            match good.find(" to ") {
+                Some(i) => {
+                    let end = good[i..].find('"').map(|j| i + j).unwrap_or(good.len());
+                    format!("{}{sep}31/Dec/{}{}", &good[..i], b.year + 1, &good[end..])
                 }
                 None => good,
             }
